@@ -115,6 +115,17 @@ def project_state(draw, compliant_bias=True, max_files=7, git=None, expr_depth=1
                 seen.add(p2)
                 files.append({"path": p2, "kind": "text", "style": f0["style"], "own": None, "dotlic": None, "table": None, "para": None, "unreadable": None, "block": False})
                 twin = (f0["path"], p2)
+    prefix_sibling = False
+    if gkind == "dep5" and draw(st.integers(0, 2)) == 0:
+        # a file without information whose path merely STARTS WITH a path that a dep5 paragraph names literally (README / README.md)
+        cands = [f for f in files if f["para"]]
+        if cands:
+            f0 = draw(st.sampled_from(cands))
+            p2 = f0["path"] + draw(st.sampled_from([".orig", "~", ".md", "-old"]))
+            if p2 not in seen:
+                seen.add(p2)
+                files.append({"path": p2, "kind": "text", "style": f0["style"], "own": None, "dotlic": None, "table": None, "para": None, "unreadable": None, "block": False})
+                prefix_sibling = True
     if use_git:
         # .gitignore is a covered file like any other
         files.append({"path": ".gitignore", "kind": "text", "style": "python", "own": {"cop": ["SPDX-FileCopyrightText: 2020 Ignorer"], "lic": ["CC0-1.0"]},
@@ -122,7 +133,7 @@ def project_state(draw, compliant_bias=True, max_files=7, git=None, expr_depth=1
     fallback = None
     if gkind == "toml" and draw(st.integers(0, 2)) == 0:
         fallback = dict(draw(info(idpool, not compliant_bias)), prec=draw(st.sampled_from(["closest", "aggregate"])))
-    state = {"files": files, "gkind": gkind, "fallback": fallback, "git": use_git, "noise": {}, "licenses": [], "defects": ["same-base-name-elsewhere"] if twin else [], "extra_used": [], "twin": twin}
+    state = {"files": files, "gkind": gkind, "fallback": fallback, "git": use_git, "noise": {}, "licenses": [], "defects": (["same-base-name-elsewhere"] if twin else []) + (["path-extends-a-dep5-entry"] if prefix_sibling else []), "extra_used": [], "twin": twin}
     # noise that must not be reported
     for nm in draw(st.lists(st.sampled_from(["LICENSE", "COPYING.md", "docs/LICENSE-MIT", "empty.py", "link.py", "sbom.spdx", "src/x.spdx.json", "ignored.log", "dangling.py", "linkdir"]), max_size=4, unique=True)):
         if nm == "ignored.log" and not use_git:
